@@ -145,7 +145,13 @@ def run_case(case):
 
     def main():
         try:
-            F.run(cfg, sig_stop=False, stop_evt=stop_evt, prop_exit='none', obey_exit='all')
+            if case.get('caller') == 'in_handler':      # a supervisor that (re)starts the filter from inside an exception handler
+                try:
+                    raise KeyError('unrelated error the caller is handling')
+                except KeyError:
+                    F.run(cfg, sig_stop=False, stop_evt=stop_evt, prop_exit='none', obey_exit='all')
+            else:
+                F.run(cfg, sig_stop=False, stop_evt=stop_evt, prop_exit='none', obey_exit='all')
             res['how'] = 'returned'
             res['t_end'] = world.now
         except simnet.SimKilled:
@@ -170,7 +176,7 @@ def run_case(case):
         lin.threading = _S['real_threading']
         lin.create_openfilter_facet_with_fields = orig_facet
     seq = [e[0] for e in events]
-    classes = [f'end {end}', f'emit cost {case["emit_cost_ms"]}', f'interval {case["interval_ms"]}']
+    classes = [f'end {end}', f'emit cost {case["emit_cost_ms"]}', f'interval {case["interval_ms"]}'] + (['run() called from inside an exception handler'] if case.get('caller') == 'in_handler' else [])
     if 'how' not in res:
         return bad(f'run() did not end within the horizon ({end}); events {seq}', f'run-not-ended:{end}', classes)
     if end in ('raise_init', 'raise_setup', 'raise_process', 'raise_shutdown', 'exit_exc_process'):
@@ -207,12 +213,14 @@ def matrix_cases(tier):
                 for interval in (1000, 250):
                     for pre in (None, 40):
                         yield {'end': end, 'k': k, 'work_ms': 100, 'emit_cost_ms': cost, 'interval_ms': interval, 'preempt_ms': pre}
+        yield {'end': end, 'k': 3, 'work_ms': 100, 'emit_cost_ms': 0, 'interval_ms': 250, 'preempt_ms': None, 'caller': 'in_handler'}
 
 
 case_st = st.fixed_dictionaries({
     'end': st.sampled_from(ENDS), 'k': st.integers(0, 30), 'work_ms': st.sampled_from([1, 10, 50, 100, 333, 1000]),
     'emit_cost_ms': st.sampled_from([0, 0, 1, 30, 99, 100, 400, 1500]), 'interval_ms': st.sampled_from([100, 250, 1000, 1000, 3000]),
     'preempt_ms': st.sampled_from([None, 0, 1, 7, 40, 99, 250]),
+    'caller': st.sampled_from(['plain', 'plain', 'in_handler']),     # where run() is called from
 })
 
 PARTS = [
